@@ -40,3 +40,29 @@ Definition updates (guard : bool) (U : list N) (s : dstate) (l : list (N * N)) :
 
 (* every inode in use is below d_next *)
 Definition wf (U : list N) (s : dstate) : Prop := forall p i, d_names s p = Some i -> (i < d_next s)%N /\ In p U.
+
+(* ---------- relink_hard_link_groups (src/sync/mod.rs), following `fix: -H brings names that already exist in the destination
+   onto their group's inode` ----------
+   After the transfers the destination names of one multiply-linked source file are visited in plan order.  [kept] holds one inode
+   per distinct file found so far ("the same file" is what the planner compares, size and time stamp; in the model: the content).
+   A name whose file is the same as a kept one is pointed at the kept inode (hard link under the working name + rename: the name
+   changes inode, no inode changes content); any other name is kept as it is and becomes a representative. *)
+Definition link_to (s : dstate) (q i : N) : dstate :=
+  mk_dstate (fun r => if N.eqb r q then Some i else d_names s r) (d_store s) (d_next s).
+
+Fixpoint relink_group (s : dstate) (kept : list N) (names : list N) : dstate :=
+  match names with
+  | [] => s
+  | q :: rest =>
+      match d_names s q with
+      | None => relink_group s kept rest
+      | Some j =>
+          match find (fun i => N.eqb (d_store s i) (d_store s j)) kept with
+          | Some i => relink_group (link_to s q i) kept rest
+          | None => relink_group s (j :: kept) rest
+          end
+      end
+  end.
+
+(* all groups, one after the other *)
+Definition relink (s : dstate) (groups : list (list N)) : dstate := fold_left (fun s g => relink_group s [] g) groups s.
